@@ -13,8 +13,9 @@ EXPLAIN["C02"] = (
     "with own header pack(size, lo(p))); P3 the own-header store dominates the link CAS; P4 the cursor is only moved by CAS in the "
     "shared paths, new derived from expected, the handed-out offset is the CAS's expected value; P5 no accessible range produced by "
     "a pop path contains the node word (ptr_offset >= node + 8); P6 no CAS ever expects a word whose size is REMOVED (so a marked "
-    "word is frozen and the marker may restore it). Not decided: linearizability, and the absence of stale-traverser reuse hazards "
-    "(the design has no safe-memory-reclamation scheme).")
+    "word is frozen and the marker may restore it); P7 search coherence of the traversals; P8 re-use (ABA) safety of the two-step pop - the words have no "
+    "version bits, there is no reclamation scheme and the link is not re-validated between mark and unlink: reported as a known finding with a gdb-forced "
+    "schedule that hands one segment to two callers. Not decided: linearizability.")
 ASSUME["C02"] = ["no safe-memory-reclamation analysis: a thread preempted between reading a predecessor and loading the node it names may load a word that has gone back to bump space",
                  "unsync::Arena is !Send/!Sync (witness W3), so only sync::Arena is shared", "C01 lemmas hold on sync as well (evaluated on both flavours)"]
 
@@ -278,3 +279,38 @@ def p7(ctx):
                     else:
                         okr = okr and (tag(w1) == "hload" and ev._target(r1) == ("heap", w1[1], tuple(w1[2])))
                 yield Ob(key_of("C02-P7", b.path, "returned-pairs"), okr, "returned (word, reference) pairs are coherent; next = node(next_offset)", ctx.loc(r))
+
+
+@rule("C02-P8", "C02", 3, "re-use (ABA) safety of the two-step pop: node addresses are recycled (a popped segment is released and re-inserted at the same address) while other "
+      "threads may still hold the link they read before; the pop is safe against that only if the words carry a version / tag, or the memory is protected by a "
+      "reclamation scheme (epoch, hazard pointers), or the link is re-validated after the mark. None of the three: a delayed popper marks a node whose owner is "
+      "re-inserting it (own word stored, not yet linked), the owner's retry erases the mark with its blind own-word store, and the popper's unlink CAS succeeds on a "
+      "link word that has returned to its old value - one segment is handed to two callers")
+def p8(ctx):
+    sn = ctx.facts.adts.get("sync::SegmentNode")
+    one_word = sn is not None and re.search(r"Atomic<u64>$", sn["variants"][0]["fields"][0]["ty"]) is not None
+    # does any crate body use a reclamation scheme?
+    smr = False
+    for b in ctx.facts.own:
+        for _, t in b.calls():
+            c = t.get("resolved") or t.get("callee") or ""
+            if re.search(r"crossbeam_epoch|epoch::pin|hazard|haphazard|seize::", c):
+                smr = True
+    for name in MARKING:
+        b, ev, res = sync_eval(ctx, name)
+        marks = [e for e in cas_entries(res) if classify_cas(res, e) == "mark"]
+        unl = [e for e in cas_entries(res) if classify_cas(res, e) == "unlink"]
+        if len(marks) != 1 or len(unl) != 1:
+            yield Ob(key_of("C02-P8", b.path, "anchors"), False, "expected one mark and one unlink CAS", b.loc())
+            continue
+        m, u = marks[0], unl[0]
+        # version bits: the words written are pack(size, next) with both halves fully used (u32, u32)
+        tagged = not (tag(m["new"]) == "pack" and tag(u["new"]) == "pack" and one_word)
+        # re-validation: a load of the link (the unlink's target) between the mark and the unlink
+        reval = [e for e in res.log if e["kind"] == "call" and e.get("atomic") == "load" and not e["chain"] and m["seq"] < e["seq"] < u["seq"] and e.get("target") == u["target"]]
+        # the unlink expects a word that was read before the mark
+        stale_expected = not mentions(u["expected"], m["result"]) and not reval
+        ok = tagged or smr or not stale_expected
+        yield Ob(key_of("C02-P8", b.path, "unlink-cas-is-aba-prone"), ok,
+                 "%s: words are pack(size: u32, next: u32) in one u64 (%s), reclamation scheme: %s, link re-read between mark and unlink: %s" %
+                 (name, "no version bits" if not tagged else "tagged", "yes" if smr else "none", "yes" if reval else "no"), ctx.loc(u))
